@@ -220,7 +220,7 @@ def parse_result(json_path, logfile, h):
     except OSError:
         pass
     res["log_tail"] = logtxt[-1500:]
-    res["oom_seen"] = ("ran out of memory" in logtxt) or ("Out of memory" in logtxt) or ("std::bad_alloc" in logtxt)
+    res["oom_seen"] = ("ran out of memory" in logtxt) or ("Solver ran out" in logtxt) or ("Out of memory" in logtxt) or ("std::bad_alloc" in logtxt)
     if not os.path.exists(json_path):
         if "error: could not compile" in logtxt or "error[E" in logtxt:
             res["status"] = "build_error"
